@@ -4,3 +4,4 @@ import PlcProofs.Props.C01
 #print axioms C01.climbing_fuel_monotone
 #print axioms C01.mirror_expression_roundtrip
 #print axioms C01.mirror_reads_any_parenthesisation
+#print axioms C01.mirror_statement_list_roundtrip
